@@ -212,8 +212,17 @@ def _run_unit_once(unit, repo_root, tier, rlimit, extra_args, template, build_ro
             label = _label_scan(lines_map, gen_lines, named['line_start']) or org.get('label')
         elif org.get('src') == 'template':
             label = _label_scan(lines_map, gen_lines, named['line_start'])
-        at_org = _origin_for(lines_map, at_span['line_start']) or {}
-        item = org.get('item') or at_org.get('item') or _enclosing_fn(gen_lines, named['line_start'])
+        # a span inside a macro body (panic!/unreachable!/format! shims) names the macro definition; the place that
+        # matters is the outermost expansion site
+        site = at_span
+        while isinstance(site.get('expansion'), dict) and isinstance(site['expansion'].get('span'), dict):
+            site = site['expansion']['span']
+        at_org = _origin_for(lines_map, site['line_start']) or {}
+        if kind == 'pre':
+            # a failed precondition belongs to the CALLER (where the proof is attempted), not to the callee whose clause is quoted
+            item = at_org.get('item') or _enclosing_fn(gen_lines, site['line_start']) or org.get('item')
+        else:
+            item = org.get('item') or at_org.get('item') or _enclosing_fn(gen_lines, named['line_start'])
         where = None
         for o in (at_org, org):
             if o.get('src') in ('repo', 'rewrite'):
